@@ -5,8 +5,8 @@
 set -e
 D=$1
 mkdir -p $D
-git -C /repo worktree add -q --detach $D/repo HEAD
-rsync -a --exclude replay --exclude scratch --exclude .git /verif/ $D/verif/
+if [ -d $D/repo ]; then git -C $D/repo checkout -q --detach $(git -C /repo rev-parse HEAD); else git -C /repo worktree add -q --detach $D/repo HEAD; fi
+rsync -a --exclude sympc/target --exclude replay --exclude scratch --exclude .git /verif/ $D/verif/
 sed -i "s|path = \"/repo/poly-commit\"|path = \"$D/repo/poly-commit\"|" $D/verif/sympc/Cargo.toml
 sed -i "s|\"/repo/\", scratch|\"$D/repo/\", scratch|" $D/verif/check
 grep -n "$D/repo" $D/verif/sympc/Cargo.toml $D/verif/check
